@@ -78,6 +78,13 @@ func casesC14(g *Gen) []*Case {
 		}
 		addRepeated("object_printing", newTree(), nil, opEvs(src, data), src)
 	}
+	// keys that differ only in letter case (or are prefixes of each other) print in one fixed order
+	{
+		obj := gvMap("id", gvInt(1), "ID", gvInt(2), "Id", gvInt(3), "iD", gvInt(4), "name", gvStr("n"), "Name", gvStr("N"), "NAME", gvStr("NN"), "nam", gvInt(0), "namee", gvInt(9))
+		for _, src := range []string{"{{ obj }}", "@dump(obj)", "{{ {id: 1, ID: 2, Id: 3, iD: 4, name: 5, Name: 6, NAME: 7} }}", "@each(o in [obj, obj])[{{ o }}]@end"} {
+			addRepeated("case_variant_keys", newTree(), nil, opEvs(src, gvMap("obj", obj)), src)
+		}
+	}
 	// several unsupported values in the data at once
 	{
 		bad := gvMap("b", &GV{K: "O", Other: "chan"}, "a", &GV{K: "O", Other: "func"}, "c", &GV{K: "O", Other: "complex"}, "loop", gvInt(1))
@@ -103,6 +110,21 @@ func casesC14(g *Gen) []*Case {
 		}
 		t.files["tpl/fine.tw"] = "fine"
 		addRepeated("several_faulty_files", t, nil, opNew("tpl", ".tw", "", false), "NewTemplate with five faulty files")
+	}
+	{
+		// many faulty files of very different sizes (a loader that works on them concurrently would
+		// report whichever finishes first)
+		t := newTree()
+		for i := 0; i < 24; i++ {
+			n := fmt.Sprintf("f%02d", (i*7)%24)
+			body := strings.Repeat("text {{ 1 + 1 }} more\n", 1+(i*37)%400)
+			if i%2 == 0 {
+				t.files["tpl/"+n+".tw"] = body + "{{ 1 + }}"
+			} else {
+				t.files["tpl/"+n+".tw"] = "{{ ) }}" + body
+			}
+		}
+		addRepeated("many_faulty_files", t, nil, opNew("tpl", ".tw", "", false), "NewTemplate with 24 faulty files of different sizes")
 	}
 	{
 		t := newTree()
@@ -606,6 +628,16 @@ func casesC20(g *Gen) []*Case {
 			opEvs(`{{ "r".echo(9223372036854775807, 0 - 1, 0.1, "", [], {}) }}`, nil)}
 		c := histCase("conversion_roundtrip", newTree(), ops, "Register; calls with nested arguments")
 		c.Oracle = expectResults(map[int]func(string) string{3: wantOK("5"), 4: wantOK("1|v|nil"), 5: wantOK("i:1,[i:2,],~"), 6: wantOK("r|i:9223372036854775807,i:-1,f:0.1,s:,[],{},")})
+		cs = append(cs, c)
+	}
+	// a custom array function that edits the slice it receives in place and returns it: the result is what is shown,
+	// and the caller's data is left alone
+	{
+		d := gvMap("xs", gvList(gvStr("a"), gvStr("bad"), gvStr("c")))
+		ops := []string{opReg("arr", "censor", 2),
+			opEvs(`{{ ["a", "bad", "c"].censor("bad") }}|{{ xs.censor("bad") }}|{{ xs }}|{{ [1, 2, 1].censor(1).len() }}|{{ [1, 2].censor() }}`, d)}
+		c := histCase("in_place_array_function", newTree(), ops, "Register(arr censor); calls on a literal and on data")
+		c.Oracle = expectResults(map[int]func(string) string{1: wantOK("a, ***, c|a, ***, c|a, bad, c|3|1, 2")})
 		cs = append(cs, c)
 	}
 	// a bool / int / float receiver from data, from a literal and from another custom function
